@@ -927,9 +927,27 @@ def coq_init(t):
             f"  is_arms := {clist(arms)};\n  is_caught := {clist([cstr(x) for x in t['caught']])};\n  is_inc := {z(t['inc'])} |}}")
 
 # ----------------------------------------------------------------------------- driver
+HELPERS = ("_get_random_samples_from_priors_", "_get_samples_from_slice_sampler_")
+def check_helpers(tree):
+    """the helpers the handlers call get the GP object: they may not store its training set nor fit it"""
+    for name in HELPERS:
+        fns = [n for n in tree.body if isinstance(n, ast.FunctionDef) and n.name == name]
+        if len(fns) != 1 or fns[0].decorator_list:
+            bad(f"helper {name} is not defined exactly once (undecorated) at module level", None, "census")
+        for n in ast.walk(fns[0]):
+            if isinstance(n, ast.Attribute) and n.attr in ("s2", "X", "y") and isinstance(n.ctx, (ast.Store, ast.Del)):
+                bad(f"helper {name} stores .{n.attr}", n, "census")
+            if isinstance(n, ast.Subscript) and isinstance(n.ctx, (ast.Store, ast.Del)) and isinstance(n.value, ast.Attribute) \
+                    and n.value.attr in ("s2", "X", "y"):
+                bad(f"helper {name} stores into .{n.value.attr}", n, "census")
+            if isinstance(n, ast.Call) and isinstance(n.func, ast.Attribute) and n.func.attr in ("fit", "__setattr__"):
+                bad(f"helper {name} calls .{n.func.attr}", n, "census")
+            if isinstance(n, ast.Call) and dotted(n.func) in ("setattr", "delattr"):
+                bad(f"helper {name} calls setattr", n, "census")
 def load():
     src = (core.REPO / REL).read_text()
     tree = ast.parse(src)
+    check_helpers(tree)
     rob = Robust(find_function(tree, "_robust_gp_fit_")).translate()
     ini = translate_init(find_function(tree, "init_and_train_gp"))
     return dict(robust=rob, init=ini)
